@@ -593,6 +593,16 @@ func main() {
 	// that never block, and none — and checks, each time a switch has returned, that its own next inbound requests are
 	// decided by the list it has just installed ("settled": nobody else switches system rules), while the traffic
 	// goroutines keep sending inbound requests through the switch.
+	for i := 0; i < 2; i++ { // inbound pressure through every system rule switch
+		spawn(fmt.Sprintf("inbound%d", i), func(r *rand.Rand) {
+			for k := 0; k < 20; k++ {
+				if e, b := sentinel.Entry("sysP", sentinel.WithTrafficType(base.Inbound)); b == nil {
+					e.Exit()
+				}
+			}
+			count(res.Requests, "sysP-inbound-x20")
+		})
+	}
 	spawn("settle-system", func(r *rand.Rand) {
 		blocking := false
 		switch r.Intn(4) {
